@@ -106,7 +106,7 @@ Definition on_ack_result_default : on_ack_result :=
      ar_newly_sacked_segments := 0; ar_newly_sacked_bytes := 0; ar_new_rtt := None |}.
 
 (* SelectiveAck as seen by the sender: the 64 bits of the array and the `len` field *)
-Record sack := { sk_bits : list bool; sk_len : Z }.
+Record sackbits := { sk_bits : list bool; sk_len : Z }.
 
 Record ack_acc := { ac_rtt : option Z; ac_maxp : Z; ac_cnt : Z; ac_bytes : Z }.
 
@@ -145,7 +145,7 @@ Fixpoint strip_delivered (l : list seg) (cnt bytes : Z) : list seg * Z * Z :=
 
 (* phase 2 of remove_up_to_ack: selective acknowledgement *)
 Definition sack_phase (t : segments) (rest : list seg) (a1 : ack_acc) (snd_una1 now ack_nr : Z)
-  (sk : option sack) : list seg * ack_acc * Z * bool :=
+  (sk : option sackbits) : list seg * ack_acc * Z * bool :=
   let a0 := {| ac_rtt := ac_rtt a1; ac_maxp := ac_maxp a1; ac_cnt := 0; ac_bytes := 0 |} in
   match rest, sk with
   | _ :: _, Some k =>
@@ -162,7 +162,7 @@ Definition sack_phase (t : segments) (rest : list seg) (a1 : ack_acc) (snd_una1 
   | _, _ => (rest, a0, ss_sack_depth t, ss_last_sack_empty t)
   end.
 
-Definition remove_up_to_ack (t : segments) (now ack_nr : Z) (sk : option sack)
+Definition remove_up_to_ack (t : segments) (now ack_nr : Z) (sk : option sackbits)
   : segments * on_ack_result :=
   let offset := seq_sub ack_nr (ss_snd_una t) in
   (* phase 1: cumulative *)
@@ -290,7 +290,7 @@ Inductive seg_op :=
 | SoEnqueue (len : Z) (probe : bool)
 | SoPopProbe (seq_nr : Z)
 | SoPopExpired (timed_out : bool) (max_retx : Z)
-| SoAck (now ack_nr : Z) (sk : option sack)
+| SoAck (now ack_nr : Z) (sk : option sackbits)
 | SoFlight (last_sent : Z)
 | SoIter (start : option Z)
 | SoOnSent (start : option Z) (k : nat) (now : Z)     (* on_sent on the k-th item of the iterator *)
